@@ -87,7 +87,7 @@ LEVEL_NOTE = ('Trusted: Lean kernel + propext/Classical.choice/Quot.sound; the c
               'bounds: depth <= 3, <= 6 members) and the abstractions listed under modelled_not_verified.')
 
 KINDS = ['person_party', 'person_indep', 'party', 'coalition', 'blank']
-STRS = ['a', 'b', 'c', 'd', '', 'Hah', 'x', 'y', 'good', 'bad', 'zz', 'None']
+STRS = ['a', 'b', 'c', 'd', '', 'P0', 'x', 'y', 'good', 'bad', 'zz', 'None']
 
 
 def sname(i):
@@ -110,16 +110,28 @@ class Pool:
         key = (kind, i)
         if key not in self.objs:
             vc = self.vc
+            # ids vary the object within its kind: 0 plain; 1 a variant; 2 an object whose name is the empty string;
+            # 3 a second object that looks exactly like id 0 (equal name, distinct identity); 4+ plain
+            nm = {0: '0', 2: None, 3: '0'}.get(i, str(i))
             if kind == 'person_party':
-                o = vc.Person(f'P{i}', candidacy_for=self.party)
+                o = vc.Person('' if nm is None else 'P' + nm, candidacy_for='StrParty' if i == 1 else self.party)
             elif kind == 'person_indep':
-                o = vc.Person(f'I{i}')
+                o = vc.Person('' if nm is None else 'I' + nm, membership=self.party if i == 1 else None)
             elif kind == 'party':
-                o = vc.PoliticalParty(f'Party{i}')
+                o = vc.PoliticalParty('' if nm is None else ('P0' if i == 1 else 'Party' + nm))
             elif kind == 'coalition':
-                o = vc.Coalition([vc.PoliticalParty(f'M{i}a'), vc.PoliticalParty(f'M{i}b')])
+                if i == 1:
+                    o = vc.Coalition([vc.PoliticalParty('M1a')])                       # a coalition of one
+                elif i == 2:
+                    o = vc.Coalition([vc.Coalition([vc.PoliticalParty('Na'), vc.PoliticalParty('Nb')]),
+                                      vc.PoliticalParty('Nc')], name='')                # nested, empty name
+                elif i == 4:
+                    o = vc.Coalition([])                                                # no members: name ''
+                else:
+                    o = vc.Coalition([vc.PoliticalParty('M0a'), vc.PoliticalParty('M0b')])
             elif kind == 'blank':
-                o = vc.NoneOfTheAbove(f'nota{i}') if i % 2 == 0 else vc.ReopenNominations(f'ron{i}')
+                cls = vc.NoneOfTheAbove if i % 2 == 0 else vc.ReopenNominations
+                o = cls('' if nm is None else ('nota' if i % 2 == 0 else 'ron') + nm)
             elif kind == 'other':
                 o = vc.Constituency()
             else:
@@ -139,6 +151,10 @@ class Pool:
             f = Fraction(e['n'])
             if e.get('D') and to_decimal(f) is not None:
                 return to_decimal(f)
+            if e.get('f') and Fraction(float(f)) == f:
+                return float(f)                     # only doubles that carry the value exactly
+            if e.get('b') and f in (0, 1):
+                return bool(f)
             return int(f) if f.denominator == 1 and not e.get('F') else f
         if 'o' in e:
             return self.cand('other', e['o'])
@@ -160,7 +176,11 @@ class Pool:
             return None
         if isinstance(o, str):
             return {'s': STRS.index(o) if o in STRS else int(o[1:])}
-        if isinstance(o, (int, Fraction, Decimal)) and not isinstance(o, bool):
+        if isinstance(o, bool):
+            return {'n': str(int(o))}
+        if isinstance(o, float):
+            return {'n': num_str(Fraction(o))}
+        if isinstance(o, (int, Fraction, Decimal)):
             return {'n': num_str(o)}
         if isinstance(o, tuple):
             return {'t': [self.encode(x, depth + 1) for x in o]}
@@ -197,7 +217,7 @@ def canon_obj(e):
             return {k: [xs[s] for s in sorted(xs)]}
     if 'd' in e:
         return {'d': [[canon_obj(x) for x in e['d'][0]], [canon_obj(x) for x in e['d'][1]]]}
-    return {k: v for k, v in e.items() if k not in ('F', 'D')}
+    return {k: v for k, v in e.items() if k not in ('F', 'D', 'f', 'b')}
 
 
 def ckey(e):
@@ -222,19 +242,28 @@ def to_decimal(f):
 
 
 def bfrac(x):
-    """exact value of a bound string 'p/q' or 'D:p/q' (the latter is handed to votelib as a Decimal)"""
-    return Fraction(x[2:] if x.startswith('D:') else x)
+    """exact value of a number string 'p/q', or 'T:p/q' with T the Python type it is handed over as:
+    F Fraction, D Decimal, f float (the exact value of the double), b bool"""
+    return Fraction(x[2:] if x[1:2] == ':' else x)
+
+
+def py_num(x):
+    """the Python number of a number string"""
+    f = bfrac(x)
+    t = x[0] if x[1:2] == ':' else ''
+    if t == 'D' and to_decimal(f) is not None:
+        return to_decimal(f)
+    if t == 'F':
+        return f
+    if t == 'f' and Fraction(float(f)) == f:
+        return float(f)
+    if t == 'b' and f in (0, 1):
+        return bool(f)
+    return int(f) if f.denominator == 1 else f
 
 
 def py_bounds(b):
-    def one(x):
-        if x is None:
-            return None
-        f = bfrac(x)
-        if x.startswith('D:') and to_decimal(f) is not None:
-            return to_decimal(f)
-        return int(f) if f.denominator == 1 else f
-    return (one(b[0]), one(b[1]))
+    return (None if b[0] is None else py_num(b[0]), None if b[1] is None else py_num(b[1]))
 
 
 def plain_bounds(b):
@@ -261,14 +290,22 @@ def py_boundmap(bm):
 
 
 def mk_nominator(n):
+    """n['flip']: the nominator is constructed with the opposite flags, which are then set to their final values
+    (the flags are plain attributes read at validation time)"""
     import votelib.candidate as vc
+    flip = bool(n.get('flip'))
     if n['k'] == 'basic':
-        return vc.BasicNominator(allow_blank=n['blank'])
-    if n['k'] == 'person':
-        return vc.PersonNominator(allow_independents=n['indep'], allow_blank=n['blank'])
-    if n['k'] == 'party':
-        return vc.PartyNominator(allow_coalitions=n['coal'], allow_blank=n['blank'])
-    raise ValueError(n)
+        nom = vc.BasicNominator(allow_blank=n['blank'] != flip)
+        nom.allow_blank = n['blank']
+    elif n['k'] == 'person':
+        nom = vc.PersonNominator(allow_independents=n['indep'] != flip, allow_blank=n['blank'] != flip)
+        nom.allow_independents, nom.allow_blank = n['indep'], n['blank']
+    elif n['k'] == 'party':
+        nom = vc.PartyNominator(allow_coalitions=n['coal'] != flip, allow_blank=n['blank'] != flip)
+        nom.allow_coalitions, nom.allow_blank = n['coal'], n['blank']
+    else:
+        raise ValueError(n)
+    return nom
 
 
 def mk_validator(val, pool):
@@ -276,10 +313,10 @@ def mk_validator(val, pool):
     VoteMagnitudeChecker objects next to contradicting bound tuples (which must be ignored);
     val['via'] == 'plain_dicts': per-rank / per-count checkers are passed as explicit plain dictionaries."""
     import votelib.vote as vv
-    nom = mk_nominator(val['nom'])
     vt = val['vt']
     via = val.get('via')
     junk = (7, 7)
+    nomkw = {} if val['nom'].get('default') else {'nominator': mk_nominator(val['nom'])}   # default: BasicNominator()
 
     def scalar(bounds_kw, checker_kw, b, name='count'):
         if via == 'checkers':
@@ -294,19 +331,19 @@ def mk_validator(val, pool):
         return {bounds_kw: py_boundmap(bm)}
 
     if vt == 'simple':
-        return vv.SimpleVoteValidator(nominator=nom)
+        return vv.SimpleVoteValidator(**nomkw)
     if vt == 'approval':
-        return vv.ApprovalVoteValidator(nominator=nom, **scalar('vote_count_bounds', 'count_checker', val['count']))
+        return vv.ApprovalVoteValidator(**nomkw, **scalar('vote_count_bounds', 'count_checker', val['count']))
     if vt == 'ranked':
-        return vv.RankedVoteValidator(nominator=nom, **scalar('total_vote_count_bounds', 'total_count_checker', val['total']),
+        return vv.RankedVoteValidator(**nomkw, **scalar('total_vote_count_bounds', 'total_count_checker', val['total']),
                                       **mapping('rank_vote_count_bounds', 'rank_vote_count_checkers', val.get('rank')))
     kw = dict(scalar('allowed_scorings', 'n_scorings_checker', val['n']))
     kw.update(mapping('sum_bounds', 'sum_checkers', val['sum'], 'sum'))
     if vt == 'enum':
-        return vv.EnumScoreVoteValidator([pool.build(x) for x in val['levels']], nominator=nom, **kw)
+        return vv.EnumScoreVoteValidator([pool.build(x) for x in val['levels']], **nomkw, **kw)
     if vt == 'range':
         kw.update(scalar('range', 'range_checker', val['range'], 'range vote value'))
-        return vv.RangeVoteValidator(nominator=nom, **kw)
+        return vv.RangeVoteValidator(**nomkw, **kw)
     raise ValueError(vt)
 
 
@@ -326,11 +363,20 @@ def _built(case):
     validator = mk_validator(case['val'], pool) if case['op'] != 'shape' else None
     if case['op'] in ('validate', 'shape'):
         obj = pool.build(case['vote'])
+    elif case['op'] == 'validate_seq':
+        obj = [pool.build(v) for v in case['votes']]
+        if case.get('first'):
+            # a differently configured validator of the same class is built and used first (class / module level state)
+            other = mk_validator(case['first'], pool)
+            for b in obj[:2]:
+                try:
+                    other.validate(b)
+                except Exception:       # noqa
+                    pass
     else:
         obj = {}
         for k, n in case['votes']:
-            f = Fraction(n)
-            obj[pool.build(k)] = int(f) if f.denominator == 1 else f
+            obj[pool.build(k)] = py_num(n)
     _LAST[0], _LAST[1] = key, (pool, validator, obj)
     return _LAST[1]
 
@@ -343,6 +389,13 @@ def impl(case):
             validator.validate(obj)
             return 'ok'
         return guarded(run)
+    if case['op'] == 'validate_seq':
+        def one(b):
+            def run():
+                validator.validate(b)
+                return 'ok'
+            return guarded(run)
+        return [one(b) for b in obj]
     if case['op'] == 'shape':
         def run():
             try:
@@ -373,6 +426,8 @@ def model_line(case):
         val['levels'] = [canon_obj(x) for x in val['levels']]
     if case['op'] == 'validate':
         return {'op': 'validate', 'val': val, 'vote': pool.encode(obj)}
+    if case['op'] == 'validate_seq':
+        return {'op': 'validate_seq', 'val': val, 'votes': [pool.encode(b) for b in obj]}
     return {'op': 'eliminate', 'val': val, 'votes': [[pool.encode(k), num_str(v)] for k, v in obj.items()]}
 
 
@@ -538,24 +593,34 @@ def oracle(case, obs):
         return []
     val = case['val']
     out = []
-    if case['op'] == 'validate':
-        why = rule(val, case['vote'])
-        if obs == 'ok':
+
+    def one(vote, ob, where=''):
+        why = rule(val, vote)
+        if ob == 'ok':
             if why:
-                out.append(('accepts_invalid:' + '+'.join(why), f'ballot accepted although {why}'))
-        elif obs.get('err') not in LIBRARY_ERRORS:
+                out.append(('accepts_invalid:' + '+'.join(why), f'ballot{where} accepted although {why}'))
+        elif ob.get('err') not in LIBRARY_ERRORS:
             # the validator did not reject the ballot, it crashed
-            cls = ('explicit_checker_dict' if (obs.get('err') == 'KeyError' and uses_plain_dicts(val))
-                   else type_error_class(val, case['vote']))
-            out.append((f"raises:{obs.get('err')}:{cls}", 'not reported as a VoteError / CandidateError'
+            cls = ('explicit_checker_dict' if (ob.get('err') == 'KeyError' and uses_plain_dicts(val))
+                   else type_error_class(val, vote))
+            out.append((f"raises:{ob.get('err')}:{cls}", f'ballot{where} not reported as a VoteError / CandidateError'
                         + ('' if why else ' (and the ballot is valid)')))
         elif not why:
-            out.append(('rejects_valid', f'valid ballot rejected with {obs}'))
+            out.append(('rejects_valid', f'valid ballot{where} rejected with {ob}'))
+
+    if case['op'] == 'validate':
+        one(case['vote'], obs)
+        return out
+    if case['op'] == 'validate_seq':
+        if not isinstance(obs, list) or len(obs) != len(case['votes']):
+            return [('sequence_shape', str(obs))]
+        for i, (v, ob) in enumerate(zip(case['votes'], obs)):
+            one(v, ob, f' #{i} of the sequence')
         return out
     if case['op'] == 'eliminate':
         expected, counts = {}, {}
         for k, n in case['votes']:
-            counts[ckey(k)] = num_str(Fraction(n))          # later duplicates overwrite (dict semantics)
+            counts[ckey(k)] = num_str(bfrac(n))          # later duplicates overwrite (dict semantics)
         verdicts = {ckey(k): rule(val, k) for k, n in case['votes']}
         expected = {k: n for k, n in counts.items() if not verdicts[k]}
         if isinstance(obs, dict):
@@ -579,7 +644,7 @@ def oracle(case, obs):
 
 
 def nontrivial(case, obs):
-    if case['op'] == 'eliminate':
+    if case['op'] in ('eliminate', 'validate_seq'):
         return True
     if case['op'] == 'shape':
         return False
